@@ -29,7 +29,7 @@ MAX_REPORTED = 12          # VIOLATION lines / replay files written per run
 MAX_SAMPLES = 6
 
 
-from vlib.errors import HarnessError
+from vlib.errors import HarnessError, AppStartFailure
 
 
 def jsonable(o):
@@ -261,6 +261,11 @@ def _memory_watchdog(limit_gb):
     _thread.start_new_thread(loop, ())
 
 
+def _startup_violation(ctx, e):
+    ctx.violation("%s:startup:%s" % (ctx.prop, e.what.split(":", 1)[0]), {"startup_argv": e.argv},
+                  "fake_trx.Application() with the command line %r does not start: %s" % (" ".join(e.argv), e.what))
+
+
 def main():
     _memory_watchdog(int(os.environ.get("VERIF_MEM_GB", "40")))
     ap = argparse.ArgumentParser()
@@ -287,7 +292,13 @@ def main():
         with open(args.replay) as f:
             rec = json.load(f)
         try:
-            mod.replay(ctx, rec["case"])
+            if isinstance(rec["case"], dict) and "startup_argv" in rec["case"]:
+                from vlib import world
+                world.make_app(rec["case"]["startup_argv"])
+            else:
+                mod.replay(ctx, rec["case"])
+        except AppStartFailure as e:
+            _startup_violation(ctx, e)
         except HarnessError as e:
             print("HARNESS-ERROR %s" % e)
             return 2
@@ -305,6 +316,11 @@ def main():
 
     try:
         mod.run(ctx)
+    except AppStartFailure as e:
+        # the rest of the exploration is not run: the evidence says so
+        _startup_violation(ctx, e)
+        ctx.cov["exhaustive"] = False
+        ctx.cov["aborted"] = "the application could not be started in one of the configurations"
     except HarnessError as e:
         print("HARNESS-ERROR %s" % e)
         return 2
